@@ -1,6 +1,7 @@
 package types
 
 import (
+	"encoding/json"
 	"fmt"
 	"reflect"
 )
@@ -15,22 +16,41 @@ func ConvertValueList(values []interface{}) ([]interface{}, error) {
 		if IsNullValue(val) {
 			return nil, fmt.Errorf("null value cannot be inserted")
 		}
+		if err := CheckEncodable(val); err != nil {
+			return nil, err
+		}
 		jsonValues = append(jsonValues, ConvertToJSONSupportedValue(val))
 	}
 	return jsonValues, nil
 }
 
-// IsNullValue returns true if the value is nil, or a nil pointer, slice or map, i.e., a value that JSON can express only as null.
+// IsNullValue returns true if the value is nil, or a nil pointer, slice or map, also behind pointers,
+// i.e., a value that JSON can express only as null.
 func IsNullValue(t interface{}) bool {
 	if t == nil {
 		return true
 	}
 	rv := reflect.ValueOf(t)
+	for rv.Kind() == reflect.Ptr || rv.Kind() == reflect.Interface {
+		if rv.IsNil() {
+			return true
+		}
+		rv = rv.Elem()
+	}
 	switch rv.Kind() {
-	case reflect.Ptr, reflect.Slice, reflect.Map:
+	case reflect.Slice, reflect.Map:
 		return rv.IsNil()
 	}
 	return false
+}
+
+// CheckEncodable returns an error for a value that JSON cannot express (NaN, an infinity, a channel, ...):
+// such a value would be applied locally and then fail when the operation is encoded.
+func CheckEncodable(t interface{}) error {
+	if _, err := json.Marshal(t); err != nil {
+		return fmt.Errorf("not a JSON value: %v", err)
+	}
+	return nil
 }
 
 // ToInterfaceArray transforms an array of JSNValues to the array of interfaces
